@@ -1,6 +1,7 @@
 package driver
 
 import (
+	"strconv"
 	"bufio"
 	"math"
 	"encoding/json"
@@ -287,6 +288,18 @@ func (r *Runner) runHarness(rel string, fn *ssa.Function, workers int) *HarnessR
 func (r *Runner) Run() int {
 	t0 := time.Now()
 	prop := r.Prop
+	// exploration budget: quick 30 min (the slowest quick check needs ~8 on the
+	// unchanged tree), thorough 6 h; GOSMT_DEADLINE_S overrides (0 = none)
+	budget := 30 * time.Minute
+	if r.Tier == "thorough" {
+		budget = 6 * time.Hour
+	}
+	if v, err := strconv.Atoi(os.Getenv("GOSMT_DEADLINE_S")); err == nil {
+		budget = time.Duration(v) * time.Second
+	}
+	if budget > 0 {
+		ssaexec.ExploreDeadline = t0.Add(budget)
+	}
 	hooks := append([]HookSpec{}, prop.Hooks...)
 	for _, rel := range prop.Pkgs {
 		if rel == "." {
@@ -360,7 +373,7 @@ func (r *Runner) Run() int {
 			continue
 		}
 		if hr.Report.Truncated {
-			broken = append(broken, hr.Name+": path budget exhausted (bound not covered)")
+			broken = append(broken, hr.Name+": path or wall-clock budget exhausted (bound not covered)")
 		}
 		if hr.Report.Reached["end"] == 0 {
 			broken = append(broken, hr.Name+": vacuous, no path reaches vReach(\"end\")")
